@@ -49,7 +49,7 @@ func (a *Activation) mapLen(st *State, m Term, mt *types.Map) Term {
 	card := sel(g.heapInt(st), m)
 	// len as bv64 with card>=0; relation kept abstract (int2bv avoided): fresh bv constrained by sign only
 	l := g.fresh("maplen", bvSort(64))
-	g.assertLine(and(bvcmp("bvsge", l, bv64(0)), eq(eq(l, bv64(0)), eq(card, T("Int", "0")))), l)
+	g.assertLine(and(bvcmp("bvsge", l, bv64(0)), bvcmp("bvsle", l, bv64(1<<40)), eq(eq(l, bv64(0)), eq(card, T("Int", "0")))), l)
 	return l
 }
 
